@@ -523,13 +523,14 @@ def gadget_items(tier):
             continue
         model, routes = gadget_model([(k1, 'Xa', c1), (k2, 'Xb', c2)])
         go = [r for r in routes if r[1].startswith(('go', 'aux'))] + [r for r in routes if r[1] == 'loafxa']
-        cands = [('wb' if c2 else 'wa', 'TargetXb')] if tier == 'quick' else [('wb' if c2 else 'wa', 'TargetXb'), ('wa', 'StartXa')]
+        cands = [('wb' if c2 else 'wa', 'TargetXb')]
         items.append((('gadget-pair', k1, 'cross' if c1 else 'same', k2, 'cross' if c2 else 'same'), model, go, cands, tier != 'quick'))
     return items
 
 
 def machine_items(tier, r):
-    states = c01.gather_states(tier, r, budget=150 if tier == 'quick' else 1000)
+    # family pairs in both tiers (deeper in the thorough tier): the whitelist dimension multiplies every model by its route subsets
+    states = c01.gather_states('quick', r, budget=150 if tier == 'quick' else 1200)
     items = []
     for model, trace, pname, flags, depth in states:
         routes = [(nsn, d.name, d.version) for nsn, fi, di, d in mm.all_defs(model) if isinstance(d, Route) and nsn != 'stone_cfg']
